@@ -627,8 +627,12 @@ def literal_inputs(ctx, size, j):
     if j == 0 and size:
         data = bytes([0xff]) * size            # all-ones: every quintet 31
     secret = gen_secret(r)
-    kinds = ("data", "filehandle", "chunky") + BUFFERED
+    # "shortread": upload.FileHandle over a trickling file object, so IUploadable.read() itself returns fewer
+    # bytes than asked and LiteralUploader has to ask again (read_this_many_bytes); later uploads follow in the same process
+    kinds = ("data", "shortread", "filehandle", "chunky", "shortread") + BUFFERED
     kind = kinds[(size + j) % len(kinds)] if j else kinds[size % len(kinds)]
+    if kind == "shortread" and size >= 2:
+        sched = [max(1, size // 3), 1] + list(sched)
     sched = gen_sched(r, size)
     return r, data, secret, kind, sched
 
